@@ -45,6 +45,7 @@ def extract(repo, failures):
     if not sat:
         miss["common"].append("next_power_of_two: saturation `if (n >= max_power_of_2) return max_power_of_2;` not found")
     d["satOp"] = sat.group(1) if sat else "?"
+    d["satStrict"] = bool(sat and sat.group(1) == ">")
     d["satConstFromMax"] = bool(re.search(r"constexpr\s+T\s+max_power_of_2\s*=\s*max_power_of_two<T>\(\)\s*;", np_ or ""))
     early = re.search(r"if\s*\(\s*is_power_of_two\s*\(\s*static_cast<uint64_t>\s*\(\s*n\s*\)\s*\)\s*\)\s*\{?\s*return\s+n\s*;", np_ or "")
     d["earlyReturnPow2"] = bool(early)
@@ -53,6 +54,7 @@ def extract(repo, failures):
         miss["common"].append("next_power_of_two: loop `T result = 1; while (result < n) result <<= 1;` not found")
     d["loopInit"] = int(lp.group(1)) if lp else 0
     d["loopCmp"] = lp.group(2) if lp else "?"
+    d["loopLe"] = bool(lp and lp.group(2) == "<=")
     d["loopShift"] = int(lp.group(3)) if lp else 0
     d["returnsResult"] = bool(re.search(r"return\s+result\s*;", np_ or ""))
     # order of the three parts: saturation, early return, loop
@@ -64,7 +66,22 @@ def extract(repo, failures):
     ini = nows(bq[m0.start():m0.start() + 1400]) if m0 else ""
     if not m0:
         miss["bounded"].append("BoundedSPSCQueueImpl constructor not found")
-    d["bCapacityFromNextPow2"] = "_capacity(next_power_of_two(capacity))" in ini
+    # two accepted shapes: the pinned `_capacity(next_power_of_two(capacity))` (never rejects: finding F32) and the repaired
+    # `_capacity(_checked_capacity(capacity))` whose helper rounds with next_power_of_two and throws when twice the result does
+    # not fit in 64 bits
+    old_shape = "_capacity(next_power_of_two(capacity))" in ini
+    new_shape = "_capacity(_checked_capacity(capacity))" in ini
+    cc = func_body(bq, r"integer_type\s+_checked_capacity\s*\(\s*integer_type\s+capacity\s*\)\s*\{")
+    ccn = nows(cc)
+    cc_rounds = bool(re.search(r"integer_typeconst(\w+)=next_power_of_two\(capacity\);", ccn))
+    cc_var = re.search(r"integer_typeconst(\w+)=next_power_of_two\(capacity\);", ccn)
+    v = cc_var.group(1) if cc_var else "c"
+    cc_guard = bool(re.search(r"if\(static_cast<uint64_t>\(" + v + r"\)>\(std::numeric_limits<uint64_t>::max\(\)>>1u?\)\)\{?QUILL_THROW\(QuillError", ccn))
+    cc_ret = bool(re.search(r"return" + v + r";\}?$", ccn))
+    if new_shape and not (cc_rounds and cc_guard and cc_ret):
+        miss["bounded"].append("_checked_capacity: `c = next_power_of_two(capacity); if (uint64_t(c) > (max<uint64_t>() >> 1)) throw; return c;` not found")
+    d["bCapacityFromNextPow2"] = old_shape or (new_shape and cc_rounds and cc_ret)
+    d["ctorRejectsOversized"] = bool(new_shape and cc_rounds and cc_guard and cc_ret)
     mk = re.search(r"_mask\(_capacity(?:-(\d+)(?:u|ul|ull)?)?\)", ini)
     if not mk:
         miss["bounded"].append("constructor: `_mask(_capacity - 1)` not found")
